@@ -11,13 +11,37 @@ void __verif_abort(void) { __CPROVER_assert(0, "ABORT: abort/ABG_ASSERT reached"
 void __verif_throw(void) { __CPROVER_assert(0, "THROW: C++ exception thrown"); __CPROVER_assume(0); }
 void __verif_unreachable(void) { __CPROVER_assert(0, "UNREACHABLE: llvm unreachable executed"); __CPROVER_assume(0); }
 #endif
+#ifndef HARNESS_OWNS_EXIT
+void __verif_exit(u32 code) { __CPROVER_assume(0); }
+#endif
 
-#ifdef DECL__Znwm
-u8 *_Znwm(u64 n) { u8 *p = malloc(n); __CPROVER_assume(p != 0); return p; }
+#ifndef VERIF_NEW_MAX
+#define VERIF_NEW_MAX 1024
 #endif
-#ifdef DECL__Znam
-u8 *_Znam(u64 n) { u8 *p = malloc(n); __CPROVER_assume(p != 0); return p; }
-#endif
+/* operator new with a size that is not an IR constant: the object gets a constant size (next power of two),
+   because CBMC's array theory does not cope with heap objects of symbolic size.  Consequence (stated in the
+   evidence): an overrun of such a block by less than the rounding slack is not detected. */
+void __verif_new_bound(u64 n, u64 max)
+{
+  __CPROVER_assert(n <= max, "BOUND: operator new size exceeds VERIF_NEW_ELEMS elements");
+  __CPROVER_assume(n <= max);
+}
+u8 *__verif_new_var(u64 n)
+{
+  u8 *p;
+  __CPROVER_assert(n <= VERIF_NEW_MAX, "BOUND: operator new size exceeds VERIF_NEW_MAX");
+  __CPROVER_assume(n <= VERIF_NEW_MAX);
+  if (n <= 8) p = malloc(8);
+  else if (n <= 16) p = malloc(16);
+  else if (n <= 32) p = malloc(32);
+  else if (n <= 64) p = malloc(64);
+  else if (n <= 128) p = malloc(128);
+  else if (n <= 256) p = malloc(256);
+  else if (n <= 512) p = malloc(512);
+  else p = malloc(VERIF_NEW_MAX);
+  __CPROVER_assume(p != 0);
+  return p;
+}
 #ifdef DECL__ZdlPv
 void _ZdlPv(u8 *p) { free(p); }
 #endif
@@ -88,25 +112,25 @@ void __cxa_guard_release(u64 *g) { *(u8 *)g = 1; }
 void __cxa_guard_abort(u64 *g) { }
 #endif
 #ifdef DECL__ZNSaIcEC2Ev
-void _ZNSaIcEC2Ev(struct class_std__allocator *a) { }
+void _ZNSaIcEC2Ev(void *a) { }
 #endif
 #ifdef DECL__ZNSaIcEC1Ev
-void _ZNSaIcEC1Ev(struct class_std__allocator *a) { }
+void _ZNSaIcEC1Ev(void *a) { }
 #endif
 #ifdef DECL__ZNSaIcED2Ev
-void _ZNSaIcED2Ev(struct class_std__allocator *a) { }
+void _ZNSaIcED2Ev(void *a) { }
 #endif
 #ifdef DECL__ZNSaIcED1Ev
-void _ZNSaIcED1Ev(struct class_std__allocator *a) { }
+void _ZNSaIcED1Ev(void *a) { }
 #endif
 #ifdef DECL__ZNSaIcEC2ERKS_
-void _ZNSaIcEC2ERKS_(struct class_std__allocator *a, struct class_std__allocator *b) { }
+void _ZNSaIcEC2ERKS_(void *a, void *b) { }
 #endif
 #ifdef DECL__ZNSt8ios_base4InitC1Ev
-void _ZNSt8ios_base4InitC1Ev(struct class_std__ios_base__Init *a) { }
+void _ZNSt8ios_base4InitC1Ev(void *a) { }
 #endif
 #ifdef DECL__ZNSt8ios_base4InitD1Ev
-void _ZNSt8ios_base4InitD1Ev(struct class_std__ios_base__Init *a) { }
+void _ZNSt8ios_base4InitD1Ev(void *a) { }
 #endif
 #ifdef DECL_isspace
 u32 isspace(u32 c) { return c == ' ' || (c >= 9 && c <= 13); }
